@@ -24,7 +24,7 @@ fn ones(bm: &[u8], off: usize, len: usize) -> usize { len - zeros(bm, off, len) 
 // returns, nlen == vlen (acceptance => validity length matches) and the array reads back the model:
 // len, value(i), is_null(i), null_count, true_count (valid true rows), false_count (valid false rows).
 // The converse direction (matching lengths are never rejected) is unit bool_new_accepts.
-// @unit name=bool_new_sound props=C09,C01 kind=bounded bound=value_and_validity_windows<=8_bits_bit_offsets=(3,6) mayreject=1 fns=BooleanArray::new,BooleanArray::value,BooleanArray::true_count,BooleanArray::false_count
+// @unit name=bool_new_sound props=C09,C01 kind=bounded bound=value_and_validity_windows<=8_bits_bit_offsets=(3,6) mayreject=1 fns=BooleanArray::new,BooleanArray::value,BooleanArray::true_count,BooleanArray::false_count tier=quick
 #[kani::proof]
 #[kani::unwind(10)]
 #[kani::stub(alloc::fmt::format, stub_format)]
@@ -95,9 +95,9 @@ macro_rules! bool_new_accepts {
         }
     };
 }
-// @unit name=bool_new_accepts_n3 props=C09,C01,C02 kind=bounded bound=rows=3_bit_offsets=(3,6) fns=BooleanArray::new,BooleanArray::value,BooleanArray::true_count,BooleanArray::false_count
+// @unit name=bool_new_accepts_n3 props=C09,C01,C02 kind=bounded bound=rows=3_bit_offsets=(3,6) fns=BooleanArray::new,BooleanArray::value,BooleanArray::true_count,BooleanArray::false_count tier=thorough
 bool_new_accepts!(bool_new_accepts_n3, 3);
-// @unit name=bool_new_accepts_n8 props=C09,C01,C02 kind=bounded bound=rows=8_bit_offsets=(3,6) fns=BooleanArray::new,BooleanArray::value,BooleanArray::true_count,BooleanArray::false_count tier=thorough note=not_confirmed_at_checkpoint
+// @unit name=bool_new_accepts_n8 props=C09,C01,C02 kind=bounded bound=rows=8_bit_offsets=(3,6) fns=BooleanArray::new,BooleanArray::value,BooleanArray::true_count,BooleanArray::false_count tier=thorough
 bool_new_accepts!(bool_new_accepts_n8, 8);
 
 // Contract (C01, C02): slice(OFF, LEN) of a 6-row boolean array (values and validity symbolic at bit
@@ -152,9 +152,9 @@ macro_rules! bool_slice {
         }
     };
 }
-// @unit name=bool_slice_1_4 props=C01,C02 kind=bounded bound=rows=6_window=(1,4)_bit_offsets=(3,6) fns=BooleanArray::slice,BooleanArray::value,BooleanArray::true_count
+// @unit name=bool_slice_1_4 props=C01,C02 kind=bounded bound=rows=6_window=(1,4)_bit_offsets=(3,6) fns=BooleanArray::slice,BooleanArray::value,BooleanArray::true_count tier=thorough
 bool_slice!(bool_slice_1_4, 1, 4);
-// @unit name=bool_slice_3_3 props=C01,C02 kind=bounded bound=rows=6_window=(3,3)_bit_offsets=(3,6) fns=BooleanArray::slice,BooleanArray::value,BooleanArray::true_count tier=thorough note=not_confirmed_at_checkpoint
+// @unit name=bool_slice_3_3 props=C01,C02 kind=bounded bound=rows=6_window=(3,3)_bit_offsets=(3,6) fns=BooleanArray::slice,BooleanArray::value,BooleanArray::true_count tier=thorough
 bool_slice!(bool_slice_3_3, 3, 3);
-// @unit name=bool_slice_5_0 props=C01,C02 kind=bounded bound=rows=6_window=(5,0)_bit_offsets=(3,6) fns=BooleanArray::slice,BooleanArray::value,BooleanArray::true_count tier=thorough note=not_confirmed_at_checkpoint
+// @unit name=bool_slice_5_0 props=C01,C02 kind=bounded bound=rows=6_window=(5,0)_bit_offsets=(3,6) fns=BooleanArray::slice,BooleanArray::value,BooleanArray::true_count tier=quick
 bool_slice!(bool_slice_5_0, 5, 0);
